@@ -36,7 +36,7 @@ def class_set(run, name, in_source, covered, what):
 
 
 def ieee_commutativity(run):
-    """IEEE-754: T(a, b) and T(b, a) agree IN DOUBLES (both NaN, or within 1e-12) for all doubles a, b of [0, 1].  The real body is evaluated in z3's Float64
+    """IEEE-754: T(a, b) and T(b, a) are EQUAL in doubles (or both NaN) for all doubles a, b of [0, 1].  The real body is evaluated in z3's Float64
     theory twice; additions, multiplications, max and min take their operands in a canonical order (they are commutative bit for bit), so a
     syntactically symmetric body gives the same term twice and the obligation is immediate, while `a > 1.0 - b` against `b > 1.0 - a` is decided by
     bit-blasting - over the reals the two are the same test, in doubles they differ when a + b rounds to 1."""
@@ -62,7 +62,7 @@ def ieee_commutativity(run):
             u, v = res
             if z3.is_bool(u) or z3.is_bool(v):
                 raise Unsupported("boolean result")
-            goal = z3.BoolVal(True) if u.eq(v) else z3.Or(z3.And(z3.fpIsNaN(u), z3.fpIsNaN(v)), z3.fpLEQ(z3.fpAbs(z3.fpSub(z3.RNE(), u, v)), fp(1e-12)))
+            goal = z3.BoolVal(True) if u.eq(v) else z3.Or(z3.And(z3.fpIsNaN(u), z3.fpIsNaN(v)), z3.fpEQ(u, v))          # exactly (fpEQ: +0 == -0)
             o = Obl(f"{fq}/ieee.commutative_in_doubles", unit, goal, fn=fq, meta=rp)
             o.fpvars = {"a": a, "b": b}
             o.timeout_s = 6          # best effort: a body that is not syntactically symmetric and multiplies needs a bit-blasted multiplier
